@@ -519,7 +519,7 @@ theorem doLoop_atts_le_fuel (fx : Fixes) (s : Stack) :
             · simp [crashOut]
             · split
               · simp [waitOut]
-              · have := ih (a + 1) (some (cleanup ‹Resp›))
+              · have := ih (a + 1) (some (cleanup (applyHook ‹Resp› (s.retryHookAt a))))
                 simp only [List.length_cons]; omega
           · simp [stopOut]
 
@@ -599,7 +599,7 @@ theorem doLoop_atts_bounded (fx : Fixes) (s : Stack) (hb : s.unbounded = false) 
             · exact one _ rfl
             · split
               · exact one _ rfl
-              · rcases ih (a + 1) (some (cleanup ‹Resp›)) with h | ⟨h, _⟩
+              · rcases ih (a + 1) (some (cleanup (applyHook ‹Resp› (s.retryHookAt a)))) with h | ⟨h, _⟩
                 · left; simp only [List.length_cons]; omega
                 · omega
           · exact one _ rfl
